@@ -3,6 +3,7 @@
 //! and (b) a JSON-lines file for the exact-rational oracles.
 mod util;
 mod c07;
+mod c06;
 
 fn main() {
     let args: Vec<String> = std::env::args().collect();
@@ -20,11 +21,14 @@ fn main() {
             let out = args[5].as_str();
             match prop {
                 "C07" => c07::run(seed, n, out),
+                "C06" => c06::run(seed, n, out, false),
+                "C16" => c06::run(seed, n, out, true),
                 _ => { eprintln!("unknown property {}", prop); std::process::exit(2) }
             }
         }
         "replay" => match args[2].as_str() {
             "C07" => c07::replay(&args[3..]),
+            "C06" | "C16" => c06::replay(&args[3..]),
             _ => { eprintln!("unknown property"); std::process::exit(2) }
         },
         _ => std::process::exit(2),
